@@ -77,7 +77,9 @@ def _worker(args):
     }
     try:
         all_cpus = None
-        if stride > 1 and hasattr(os, "sched_setaffinity"):
+        steps0 = 0
+        if stride > 1 and getattr(spec, "pin_workers", True) and \
+                hasattr(os, "sched_setaffinity"):
             # baton hand-offs between the threads of one worker are far
             # cheaper when they stay on one core - as long as that core is
             # ours; when something else competes for it every hand-off waits
@@ -94,13 +96,19 @@ def _worker(args):
         for idx in range(lo, hi, stride):
             if out["runs"] % 50 == 0:
                 faulthandler.dump_traceback_later(3600, exit=True)
-            if all_cpus is not None and out["runs"] in (10, 60, 300, 2000):
-                if t_mark.elapsed() / out["runs"] > spec.slow_run_s:
+            if out["runs"] == 10:
+                # warm-up (first compilation of the modules, imports) is over
+                t_mark = report.Stopwatch()
+                steps0 = out["steps"]
+            if all_cpus is not None and out["runs"] in (40, 200, 1000, 5000):
+                per = t_mark.elapsed() / max(1, out["steps"] - steps0)
+                if per > spec.slow_step_s:
                     try:
                         os.sched_setaffinity(0, all_cpus)
                     except OSError:
                         pass
                     all_cpus = None
+                    out["probes"]["worker_unpinned"] += 1
             res = run_idx(spec, seed, idx)
             out["runs"] += 1
             out["faults"].update(res.get("faults", {}))
